@@ -1364,6 +1364,11 @@ impl UntypedExpr {
                     let e = TypeErrorEnum::InvalidRange(*from, *to);
                     return Err(vec![Some(TypeError::new(e, meta))]);
                 }
+                // the largest element of the range must be a value of the (suffix) type of its bounds
+                if num_ty.max().is_some_and(|max| to - 1 > max) {
+                    let e = TypeErrorEnum::InvalidRange(*from, *to);
+                    return Err(vec![Some(TypeError::new(e, meta))]);
+                }
                 let ty = Type::Array(Box::new(Type::Unsigned(*num_ty)), (to - from) as usize);
                 (ExprEnum::Range(*from, *to, *num_ty), ty)
             }
